@@ -342,7 +342,10 @@ ycw_get_yday(unsigned int y, int c, echs_wday_t w)
 	 * the second W is the 8th yday, etc.
 	 * so the first W is on 1 + diff */
 	if (c > 0) {
-		return 7 * (c - 1) + diff + 1;
+		const unsigned int res = 7U * (c - 1) + diff + 1U;
+
+		/* there may not be a C-th W in Y */
+		return res <= 365U + !(y % 4U) ? res : 0U;
 	} else if (c < 0) {
 		/* similarly for negative c,
 		 * there's always the 53rd J01 in Y,
@@ -360,7 +363,8 @@ ycw_get_yday(unsigned int y, int c, echs_wday_t w)
 			}
 			break;
 		}
-		return res - 7;
+		/* there may not be a 53rd W in Y */
+		return res > 7U ? res - 7U : 0U;
 	}
 	/* otherwise it's bullshit */
 	return 0U;
